@@ -11,6 +11,7 @@ from ..fold import CannotFold, Folder, fold_expr, module_const, need
 from ..interp import analyze, truth
 from ..model import AnalysisError, Model
 from ..report import Ctx, where
+from ..strtpl import flatten
 from ..terms import NONE, show, walk
 
 QUOTERS_MODULE = "_quoters"
@@ -33,29 +34,58 @@ def class_init_defaults(model: Model, module: str, cls: str):
     return out, kwonly
 
 
+def constructor_call(model: Model, module: str, t, depth=0):
+    """(class name, {keyword: value term}) when t is a call of _Quoter / _Unquoter: directly, through a
+    functools.partial object (whose stored keywords are overridden by the call's), or None."""
+    if t[0] != "call" or depth > 3:
+        return None
+    f, args, kwargs = t[1], t[2], dict(t[3])
+    if f[0] == "global":
+        r = model.resolve_global(f[1], f[2])
+        if r and r[0] == "class" and r[2] in ("_Quoter", "_Unquoter"):
+            if args:
+                raise AnalysisError(f"{module}: positional constructor arguments in {show(t)[:60]}")
+            return r[2], kwargs
+        if r and r[0] == "value":
+            from ..fold import module_value
+            try:
+                base = module_value(model, r[1], r[2])
+            except CannotFold:
+                return None
+            # P = partial(Class, **kw);  P(**kw2)
+            if base[0] == "call" and base[1][0] == "ext" and base[1][1] == "functools" and base[1][2] == "partial" and len(base[2]) == 1:
+                inner = constructor_call(model, module, ("call", base[2][0], (), base[3]), depth + 1)
+                if inner is not None and not args:
+                    kw = dict(inner[1])
+                    kw.update(kwargs)
+                    return inner[0], kw
+    return None
+
+
 def configurations(model: Model, backend_module: str = "_quoting_py"):
-    """name -> (class name, full keyword configuration) for every module-level _Quoter/_Unquoter instance."""
+    """name -> (class name, full keyword configuration) for every module-level _Quoter/_Unquoter instance, however it is
+    spelled: a direct constructor call, a functools.partial of the class, or a (non-anchor) factory function."""
+    from ..fold import module_value
     mi = model.module(QUOTERS_MODULE)
     out = {}
     for name, sts in mi.assigns.items():
-        for st in sts:
-            v = st.value
-            if not isinstance(v, ast.Call) or not isinstance(v.func, ast.Name):
-                continue
-            r = model.resolve_global(QUOTERS_MODULE, v.func.id)
-            if not r or r[0] != "class" or r[2] not in ("_Quoter", "_Unquoter"):
-                continue
-            if len(sts) != 1:
-                raise AnalysisError(f"{QUOTERS_MODULE}.{name} is assigned more than once")
-            if v.args:
-                raise AnalysisError(f"{QUOTERS_MODULE}.{name}: positional constructor arguments")
-            defaults, _ = class_init_defaults(model, backend_module, r[2])
-            cfg = dict(defaults)
-            for kw in v.keywords:
-                if kw.arg is None or kw.arg not in defaults:
-                    raise AnalysisError(f"{QUOTERS_MODULE}.{name}: unknown constructor keyword {kw.arg}")
-                cfg[kw.arg] = need(lambda: fold_expr(model, QUOTERS_MODULE, kw.value), f"{name}({kw.arg}=...)")
-            out[name] = (r[2], cfg)
+        try:
+            t = module_value(model, QUOTERS_MODULE, name)
+        except CannotFold:
+            if any(isinstance(n, ast.Name) and n.id in ("_Quoter", "_Unquoter") for st in sts for n in ast.walk(st)):
+                raise AnalysisError(f"{QUOTERS_MODULE}.{name} is built from _Quoter/_Unquoter but not by a single unconditional initialiser")
+            continue
+        c = constructor_call(model, QUOTERS_MODULE, t)
+        if c is None:
+            continue
+        cls, kwargs = c
+        defaults, _ = class_init_defaults(model, backend_module, cls)
+        cfg = dict(defaults)
+        for k, vt in kwargs.items():
+            if k is None or k not in defaults:
+                raise AnalysisError(f"{QUOTERS_MODULE}.{name}: unknown constructor keyword {k}")
+            cfg[k] = need(lambda: Folder(model).fold(vt), f"{name}({k}=...)")
+        out[name] = (cls, cfg)
     return out
 
 
@@ -122,7 +152,7 @@ class PyQuoter:
     def __init__(self, ctx: Ctx, model: Model):
         self.ctx, self.model = ctx, model
         self.fi = model.func(self.QUAL)
-        self.r = analyze(model, self.fi)
+        self.r = analyze(model, self.fi, merge=False)       # a small function: every path is kept apart
         self.attr_map = self_attr_params(model, "_quoting_py._Quoter.__init__")
         ctx.functions.update([self.QUAL, "_quoting_py._Quoter.__init__"])
         self.sites = []           # dicts: cls, event, ...
@@ -229,7 +259,7 @@ class PyQuoter:
                     unit = self.current_unit(e.state)
                     qs_ok = any(k[0] == "attr" and k[2] in self.attr_map and self.attr_map[k[2]] == "qs" and v
                                 for k, v in e.state.facts.items())
-                    sp_ok = unit is not None and e.state.facts.get(("cmp", "Eq", unit, ("call", ("builtin", "ord"), (("const", " "),), ()))) is True
+                    sp_ok = unit is not None and self.unit_is(e.state, unit, ord(" "))
                     ctx.ob(rule, self.QUAL, cons, qs_ok and sp_ok,
                            "'+' is emitted for something other than a space under qs", w,
                            sample="facts: qs is set, unit == ord(' ')")
@@ -273,6 +303,15 @@ class PyQuoter:
         self._rewind()
         self._returns()
 
+    def unit_is(self, state, unit, code):
+        """The path knows `unit == <code>`, however the code is spelled (ord("%"), 37, a module constant holding either)."""
+        for k, v in state.facts.items():
+            if v is True and k[0] == "cmp" and k[1] == "Eq" and unit in (k[2], k[3]):
+                other = k[3] if k[2] == unit else k[2]
+                if self._folded(other) == code:
+                    return True
+        return False
+
     def current_unit(self, state):
         for k in state.facts:
             for t in walk(k):
@@ -281,27 +320,83 @@ class PyQuoter:
         return None
 
     def byte_escape(self, a):
-        # f"%{unit:02X}".encode("ascii")
-        if a[0] == "call" and a[1][0] == "attr" and a[1][2] == "encode" and a[1][1][0] == "fstr":
-            parts = a[1][1][1]
-            if len(parts) == 2 and parts[0] == ("const", "%") and parts[1][0] == "fmt":
-                return parts[1][1], parts[1][3]
+        # f"%{unit:02X}".encode("ascii") in any spelling of the template ...
+        if a[0] == "call" and a[1][0] == "attr" and a[1][2] == "encode":
+            parts = flatten(a[1][1])
+            if len(parts) == 2 and parts[0] == ("lit", "%") and parts[1][0] == "fmt":
+                return parts[1][1], parts[1][2]
+        # b"%%%02X" % unit
+        if a[0] == "binop" and a[1] == "Mod" and a[2][0] == "const" and isinstance(a[2][1], bytes):
+            m = re.fullmatch(rb"%%%(0?\d*[xX])", a[2][1])
+            if m and a[3][0] != "tuple":
+                return a[3], m.group(1).decode()
+        # ... or a precomputed table of the 256 escapes indexed by the byte
+        if a[0] == "sub" and a[1][0] == "global":
+            table = self._folded(a[1])
+            if isinstance(table, (tuple, list)) and len(table) == 256:
+                if all(bytes(table[i]) == b"%%%02X" % i for i in range(256)):
+                    return a[2], "02X"
+                return a[2], "table that is not '%' + two upper-case hex digits of the index"
         return None
 
+    def _folded(self, t):
+        try:
+            return Folder(self.model).fold(t)
+        except CannotFold:
+            return None
+
+    def _escape_table(self, t):
+        """t = TABLE.get(bytes(W)) / TABLE[bytes(W)] with TABLE = {b"%XX": chr(0xXX)} for all 256 values, upper-case keys only:
+        returns (W, is_get). A table with any other content is not this idiom."""
+        if t[0] == "call" and t[1][0] == "attr" and t[1][2] == "get" and len(t[2]) == 1:
+            tab, key, is_get = t[1][1], t[2][0], True
+        elif t[0] == "sub":
+            tab, key, is_get = t[1], t[2], False
+        else:
+            return None
+        if tab[0] != "global":
+            return None
+        if is_call_to(key, "bytes") and len(key[2]) == 1:
+            key = key[2][0]
+        if not (self.win and self.win_root(key) and key[0] != "phi"):
+            return None
+        table = self._folded(tab)
+        if not isinstance(table, dict) or len(table) != 256:
+            return None
+        if any(table.get(b"%%%02X" % i) != chr(i) for i in range(256)):
+            return None
+        return key, is_get
+
     def decoded_char(self, a):
-        # ord(chr(int(<window>[1:].decode("ascii"), base=16)))
+        """(character term, window) when `a` is the code of the character an escape window spells:
+        ord(chr(int(W[1:], 16))), int(W[1:], 16) itself, or ord(TABLE[bytes(W)])."""
+        if is_call_to(a, "int") and any(kw == ("base", ("const", 16)) for kw in a[3]) or \
+                (is_call_to(a, "int") and len(a[2]) == 2 and a[2][1] == ("const", 16)):
+            for t in walk(a):
+                if self.win and self.win_root(t) and t[0] != "phi":
+                    return ("call", ("builtin", "chr"), (a,), ()), t
         if is_call_to(a, "ord") and len(a[2]) == 1:
             ch = a[2][0]
             if is_call_to(ch, "chr") and len(ch[2]) == 1 and is_call_to(ch[2][0], "int"):
                 for t in walk(ch[2][0]):
                     if self.win and self.win_root(t) and t[0] != "phi":
                         return ch, t
+            tab = self._escape_table(ch)
+            if tab is not None:
+                return ch, tab[0]
         return None
 
     def validated(self, state, window):
         """The window holds '%' + two characters accepted by the hex regex and by int(.., 16)."""
         if truth(("cmp", "Eq", ("call", ("builtin", "len"), (window,), ()), ("const", 3)), state.facts) is not True:
             return False, "len(window) == 3 not established"
+        # validated by a successful look-up in the table of all well-formed escapes
+        for k in list(state.facts) + [x for v in state.env.values() for x in (v,)]:
+            for t in walk(k):
+                tab = self._escape_table(t) if t[0] in ("call", "sub") else None
+                if tab is not None and tab[0] == window:
+                    if (tab[1] and truth(("cmp", "Is", t, NONE), state.facts) is False) or not tab[1]:
+                        return True, "window found in the table of the 256 upper-case escapes"
         rx = None
         for k, v in state.facts.items():
             if v and k[0] == "call" and k[1][0] == "attr" and k[1][2] in ("match", "fullmatch") and k[2] \
@@ -352,7 +447,7 @@ class PyQuoter:
             after_clear = e.recv[0] == "mut" and e.recv[2] == "clear"
             if after_clear or not nonempty:
                 self.win_starts.append(e)
-                ok = self.is_unit(a) and e.state.facts.get(("cmp", "Eq", a, pct)) is True
+                ok = self.is_unit(a) and self.unit_is(e.state, a, ord("%"))
                 ctx.ob(rule, self.QUAL, cons, ok, "escape window is started with something that is not known to be '%'", w,
                        sample="window emptied, unit == ord('%')")
             else:
@@ -414,8 +509,8 @@ class PyQuoter:
                 base, off = lin(s.env.get(self.idx_name, phi))
                 win = s.env.get(self.win) if self.win else None
                 acc = s.env.get(self.acc)
-                flushed = acc is not None and acc[0] == "mut" and acc[2] == "extend" and acc[3] == (("const", b"%25"),) \
-                    and win is not None and win[0] == "mut" and win[2] == "clear"
+                flushed = acc is not None and acc[0] == "mut" and acc[2] == "extend" and len(acc[3]) == 1 and \
+                    self._folded(acc[3][0]) == b"%25" and win is not None and win[0] == "mut" and win[2] == "clear"
                 want = 1
                 why = "advance by one"
                 if flushed:
@@ -424,6 +519,12 @@ class PyQuoter:
                     for k, v in s.facts.items():
                         if v and k[0] == "cmp" and k[1] == "Eq" and k[2] == ("call", ("builtin", "len"), (w0,), ()) and k[3][0] == "const":
                             n = k[3][1]
+                    if n is None:
+                        # not tested on this path: the lengths the window can have here, from its own life cycle
+                        # (emptied by clear(), grown by one per append) and the tests that were made
+                        poss = self._window_lengths(lid, s, w0)
+                        if poss is not None and len(poss) == 1:
+                            n = next(iter(poss))
                     if n is None:
                         groups.setdefault("flush without a known window length", []).append(False)
                         continue
@@ -436,6 +537,76 @@ class PyQuoter:
             ctx.ob(rule, self.QUAL, why, all(oks),
                    "the scan index is not where the consumed/emitted bytes say it should be: input bytes would be skipped or "
                    "scanned twice", where(self.fi, self.fi.node), sample=f"{len(oks)} iteration path(s)")
+
+    # -- the escape window's length, as a small set ------------------------------------------------------------------
+    def _len_of(self, t, head_len):
+        """Length of a window term when the window holds head_len bytes at the loop head; None = unknown operation."""
+        if t[0] == "phi":
+            return head_len
+        if t[0] == "mut":
+            b = self._len_of(t[1], head_len)
+            if b is None:
+                return None
+            if t[2] == "append":
+                return b + 1
+            if t[2] == "clear":
+                return 0
+        return None
+
+    def _consistent_len(self, state, head_len):
+        """Do the path's tests on window terms (truthiness, len(w) == c) agree with this head length?"""
+        for k, v in state.facts.items():
+            t = None
+            if self.win_root(k):
+                n = self._len_of(k, head_len)
+                if n is not None and (n > 0) != v:
+                    return False
+            elif k[0] == "cmp" and k[1] == "Eq" and is_call_to(k[2], "len") and k[3][0] == "const" and self.win_root(k[2][2][0]):
+                n = self._len_of(k[2][2][0], head_len)
+                if n is not None and (n == k[3][1]) != v:
+                    return False
+        return True
+
+    def _head_lengths(self, lid):
+        """Least fixpoint of the window length at the loop head (starts empty; every iteration transforms it)."""
+        cache = self.__dict__.setdefault("_hl", {})
+        if lid in cache:
+            return cache[lid]
+        L = {0}
+        for _ in range(8):
+            new = set(L)
+            for s in self.r.backedges.get(lid, []):
+                w = s.env.get(self.win)
+                if w is None:
+                    continue
+                for h in L:
+                    if self._consistent_len(s, h):
+                        n = self._len_of(w, h)
+                        if n is None:
+                            cache[lid] = None
+                            return None
+                        new.add(n)
+            if new == L:
+                break
+            L = new
+            if len(L) > 6:
+                cache[lid] = None
+                return None
+        cache[lid] = L
+        return L
+
+    def _window_lengths(self, lid, state, w):
+        heads = self._head_lengths(lid)
+        if heads is None:
+            return None
+        out = set()
+        for h in heads:
+            if self._consistent_len(state, h):
+                n = self._len_of(w, h)
+                if n is None:
+                    return None
+                out.add(n)
+        return out
 
     def _returns(self):
         ctx, r = self.ctx, self.r
